@@ -81,6 +81,47 @@ const (
 
 type methodSet map[string]*ssa.Function
 
+var constCache = map[*ssa.Const]value{}
+
+var envIndexes = map[*ssa.Function]map[ssa.Value]int32{}
+
+// envIndex numbers the SSA values of fn (parameters, free variables, locals, value-producing instructions).
+func envIndex(fn *ssa.Function) map[ssa.Value]int32 {
+	if m, ok := envIndexes[fn]; ok {
+		return m
+	}
+	m := map[ssa.Value]int32{}
+	add := func(v ssa.Value) {
+		if _, ok := m[v]; !ok {
+			m[v] = int32(len(m))
+		}
+	}
+	for _, p := range fn.Params {
+		add(p)
+	}
+	for _, fv := range fn.FreeVars {
+		add(fv)
+	}
+	for _, l := range fn.Locals {
+		add(l)
+	}
+	for _, b := range fn.Blocks {
+		for _, in := range b.Instrs {
+			if v, ok := in.(ssa.Value); ok {
+				add(v)
+			}
+		}
+	}
+	envIndexes[fn] = m
+	return m
+}
+
+func (fr *frame) setv(key ssa.Value, v value) {
+	k := fr.idx[key]
+	fr.env[k] = v
+	fr.envSet[k] = true
+}
+
 type fnMeta struct {
 	name     string
 	depInit  bool
@@ -130,7 +171,9 @@ type frame struct {
 	caller           *frame
 	fn               *ssa.Function
 	block, prevBlock *ssa.BasicBlock
-	env              map[ssa.Value]value // dynamic values of SSA variables
+	env              []value             // dynamic values of SSA variables, indexed through idx
+	envSet           []bool
+	idx              map[ssa.Value]int32 // per-function numbering of the SSA values (shared by all frames of fn)
 	locals           []value
 	defers           *deferred
 	result           value
@@ -148,14 +191,22 @@ func (fr *frame) get(key ssa.Value) value {
 	case *ssa.Function, *ssa.Builtin:
 		return key
 	case *ssa.Const:
-		return constValue(key)
+		if v, ok := constCache[key]; ok {
+			return v
+		}
+		v := constValue(key)
+		switch v.(type) {
+		case bool, int, int8, int16, int32, int64, uint, uint8, uint16, uint32, uint64, uintptr, float32, float64, string:
+			constCache[key] = v // immutable scalars only
+		}
+		return v
 	case *ssa.Global:
 		if r, ok := fr.i.globals[key]; ok {
 			return r
 		}
 	}
-	if r, ok := fr.env[key]; ok {
-		return r
+	if k, ok := fr.idx[key]; ok && fr.envSet[k] {
+		return fr.env[k]
 	}
 	panic(fmt.Sprintf("get: no value for %T: %v", key, key.Name()))
 }
@@ -224,35 +275,35 @@ func visitInstr(fr *frame, instr ssa.Instruction) continuation {
 		if instr.Op == token.MUL {
 			fr.i.recordAccess(fr.get(instr.X), false, fr, instr.Pos())
 		}
-		fr.env[instr] = unop(instr, fr.get(instr.X))
+		fr.setv(instr, unop(instr, fr.get(instr.X)))
 
 	case *ssa.BinOp:
-		fr.env[instr] = binop(instr.Op, instr.X.Type(), fr.get(instr.X), fr.get(instr.Y))
+		fr.setv(instr, binop(instr.Op, instr.X.Type(), fr.get(instr.X), fr.get(instr.Y)))
 
 	case *ssa.Call:
 		fn, args := prepareCall(fr, &instr.Call)
-		fr.env[instr] = call(fr.i, fr, instr.Pos(), fn, args)
+		fr.setv(instr, call(fr.i, fr, instr.Pos(), fn, args))
 
 	case *ssa.ChangeInterface:
-		fr.env[instr] = fr.get(instr.X)
+		fr.setv(instr, fr.get(instr.X))
 
 	case *ssa.ChangeType:
-		fr.env[instr] = fr.get(instr.X) // (can't fail)
+		fr.setv(instr, fr.get(instr.X)) // (can't fail)
 
 	case *ssa.Convert:
-		fr.env[instr] = conv(instr.Type(), instr.X.Type(), fr.get(instr.X))
+		fr.setv(instr, conv(instr.Type(), instr.X.Type(), fr.get(instr.X)))
 
 	case *ssa.SliceToArrayPointer:
-		fr.env[instr] = sliceToArrayPointer(instr.Type(), instr.X.Type(), fr.get(instr.X))
+		fr.setv(instr, sliceToArrayPointer(instr.Type(), instr.X.Type(), fr.get(instr.X)))
 
 	case *ssa.MakeInterface:
-		fr.env[instr] = iface{t: instr.X.Type(), v: fr.get(instr.X)}
+		fr.setv(instr, iface{t: instr.X.Type(), v: fr.get(instr.X)})
 
 	case *ssa.Extract:
-		fr.env[instr] = fr.get(instr.Tuple).(tuple)[instr.Index]
+		fr.setv(instr, fr.get(instr.Tuple).(tuple)[instr.Index])
 
 	case *ssa.Slice:
-		fr.env[instr] = slice(fr.get(instr.X), fr.get(instr.Low), fr.get(instr.High), fr.get(instr.Max))
+		fr.setv(instr, slice(fr.get(instr.X), fr.get(instr.Low), fr.get(instr.High), fr.get(instr.Max)))
 
 	case *ssa.Return:
 		switch len(instr.Results) {
@@ -329,17 +380,17 @@ func visitInstr(fr *frame, instr ssa.Instruction) continuation {
 		}()
 
 	case *ssa.MakeChan:
-		fr.env[instr] = make(chan value, asInt64(fr.get(instr.Size)))
+		fr.setv(instr, make(chan value, asInt64(fr.get(instr.Size))))
 
 	case *ssa.Alloc:
 		var addr *value
 		if instr.Heap {
 			// new
 			addr = new(value)
-			fr.env[instr] = addr
+			fr.setv(instr, addr)
 		} else {
 			// local
-			addr = fr.env[instr].(*value)
+			addr = fr.get(instr).(*value)
 		}
 		*addr = zero(mustDeref(instr.Type()))
 
@@ -349,7 +400,7 @@ func visitInstr(fr *frame, instr ssa.Instruction) continuation {
 		for i := range slice {
 			slice[i] = zero(tElt)
 		}
-		fr.env[instr] = slice[:asInt64(fr.get(instr.Len))]
+		fr.setv(instr, slice[:asInt64(fr.get(instr.Len))])
 
 	case *ssa.MakeMap:
 		var reserve int64
@@ -359,29 +410,29 @@ func visitInstr(fr *frame, instr ssa.Instruction) continuation {
 		if !fitsInt(reserve, fr.i.sizes) {
 			panic(fmt.Sprintf("ssa.MakeMap.Reserve value %d does not fit in int", reserve))
 		}
-		fr.env[instr] = newSmap(instr.Type().Underlying().(*types.Map).Key())
+		fr.setv(instr, newSmap(instr.Type().Underlying().(*types.Map).Key()))
 
 	case *ssa.Range:
 		fr.i.recordAccess(fr.get(instr.X), false, fr, instr.Pos())
-		fr.env[instr] = rangeIter(fr.get(instr.X), instr.X.Type())
+		fr.setv(instr, rangeIter(fr.get(instr.X), instr.X.Type()))
 
 	case *ssa.Next:
-		fr.env[instr] = fr.get(instr.Iter).(iter).next()
+		fr.setv(instr, fr.get(instr.Iter).(iter).next())
 
 	case *ssa.FieldAddr:
-		fr.env[instr] = &(*fr.get(instr.X).(*value)).(structure)[instr.Field]
+		fr.setv(instr, &(*fr.get(instr.X).(*value)).(structure)[instr.Field])
 
 	case *ssa.Field:
-		fr.env[instr] = fr.get(instr.X).(structure)[instr.Field]
+		fr.setv(instr, fr.get(instr.X).(structure)[instr.Field])
 
 	case *ssa.IndexAddr:
 		x := fr.get(instr.X)
 		idx := fr.get(instr.Index)
 		switch x := x.(type) {
 		case []value:
-			fr.env[instr] = &x[asInt64(idx)]
+			fr.setv(instr, &x[asInt64(idx)])
 		case *value: // *array
-			fr.env[instr] = &(*x).(array)[asInt64(idx)]
+			fr.setv(instr, &(*x).(array)[asInt64(idx)])
 		default:
 			panic(fmt.Sprintf("unexpected x type in IndexAddr: %T", x))
 		}
@@ -392,18 +443,18 @@ func visitInstr(fr *frame, instr ssa.Instruction) continuation {
 
 		switch x := x.(type) {
 		case array:
-			fr.env[instr] = x[asInt64(idx)]
+			fr.setv(instr, x[asInt64(idx)])
 		case string:
-			fr.env[instr] = x[asInt64(idx)]
+			fr.setv(instr, x[asInt64(idx)])
 		case sstr:
-			fr.env[instr] = x[asInt64(idx)]
+			fr.setv(instr, x[asInt64(idx)])
 		default:
 			panic(fmt.Sprintf("unexpected x type in Index: %T", x))
 		}
 
 	case *ssa.Lookup:
 		fr.i.recordAccess(fr.get(instr.X), false, fr, instr.Pos())
-		fr.env[instr] = lookup(instr, fr.get(instr.X), fr.get(instr.Index))
+		fr.setv(instr, lookup(instr, fr.get(instr.X), fr.get(instr.Index)))
 
 	case *ssa.MapUpdate:
 		m := fr.get(instr.Map)
@@ -421,14 +472,14 @@ func visitInstr(fr *frame, instr ssa.Instruction) continuation {
 		}
 
 	case *ssa.TypeAssert:
-		fr.env[instr] = typeAssert(fr.i, instr, fr.get(instr.X).(iface))
+		fr.setv(instr, typeAssert(fr.i, instr, fr.get(instr.X).(iface)))
 
 	case *ssa.MakeClosure:
 		var bindings []value
 		for _, binding := range instr.Bindings {
 			bindings = append(bindings, fr.get(binding))
 		}
-		fr.env[instr] = &closure{instr.Fn.(*ssa.Function), bindings}
+		fr.setv(instr, &closure{instr.Fn.(*ssa.Function), bindings})
 
 	case *ssa.Phi:
 		log.Fatal("unreachable") // phis are processed at block entry
@@ -474,7 +525,7 @@ func visitInstr(fr *frame, instr ssa.Instruction) continuation {
 				r = append(r, v)
 			}
 		}
-		fr.env[instr] = r
+		fr.setv(instr, r)
 
 	default:
 		panic(fmt.Sprintf("unexpected instruction: %T", instr))
@@ -606,18 +657,20 @@ func callSSA(i *interpreter, caller *frame, callpos token.Pos, fn *ssa.Function,
 		panic("interp requires ssa.BuilderMode to include InstantiateGenerics to execute generics")
 	}
 
-	fr.env = make(map[ssa.Value]value)
+	fr.idx = envIndex(fn)
+	fr.env = make([]value, len(fr.idx))
+	fr.envSet = make([]bool, len(fr.idx))
 	fr.block = fn.Blocks[0]
 	fr.locals = make([]value, len(fn.Locals))
 	for i, l := range fn.Locals {
 		fr.locals[i] = zero(mustDeref(l.Type()))
-		fr.env[l] = &fr.locals[i]
+		fr.setv(l, &fr.locals[i])
 	}
 	for i, p := range fn.Params {
-		fr.env[p] = args[i]
+		fr.setv(p, args[i])
 	}
 	for i, fv := range fn.FreeVars {
-		fr.env[fv] = env[i]
+		fr.setv(fv, env[i])
 	}
 	for fr.block != nil {
 		runFrame(fr)
@@ -723,7 +776,7 @@ func executePhis(fr *frame) []ssa.Instruction {
 			fr.phitemps = append(fr.phitemps, fr.get(phi.Edges[predIndex]))
 		}
 		for i, phi := range phis {
-			fr.env[phi.(*ssa.Phi)] = fr.phitemps[i]
+			fr.setv(phi.(*ssa.Phi), fr.phitemps[i])
 		}
 	}
 	return nonPhis
